@@ -82,7 +82,14 @@ class ServerRun:
         self.ctxt.setMessageTimeout(cfg["ot"] / TICK)
         self.ctxt.setConnectionTimeout(cfg["ct"] / TICK)
         self.ctxt.setTempConnectionTimeout(cfg["tt"] / TICK)
-        self.ctxt.setBlockList(set(str(ip) for ip in cfg["block"]))
+        # WHEN the block list is installed must not matter ("for every block list"): before the server objects exist, after they
+        # exist, as a replacement of an earlier list, or by adding to the context's own set in place
+        blocked = set(str(ip) for ip in cfg["block"])
+        mode = cfg.get("block_mode", "before")
+        if mode == "before":
+            self.ctxt.setBlockList(blocked)
+        elif mode == "replace":
+            self.ctxt.setBlockList({"250", "251"})
         self.sock_out = []
 
         class Sock:
@@ -91,6 +98,10 @@ class ServerRun:
         self.thread = S.UdpServerThread(Sock(), self.ctxt)
         self.tw = TW.TwistedServer(self.ctxt, ("0.0.0.0", 1), install_signals=False)
         self.tw.thread = self.thread
+        if mode in ("after", "replace"):
+            self.ctxt.setBlockList(blocked)
+        elif mode == "inplace":
+            self.ctxt.blocklist.update(blocked)
 
         class CV:                                  # stands in for threading.Condition (single-threaded)
             def wait(self_cv, timeout=None):
@@ -309,6 +320,7 @@ def gen_server_case(real, rng, cid, n_iter=50, n_clients=3, hostile=0.3, mtu=150
     C = real.C
     cfg = dict(cfg or {"ka": 96, "ot": 1024, "ct": rng.choice([2048, 5120]), "tt": rng.choice([1024, 2048])})
     cfg["block"] = list(block)
+    cfg["block_mode"] = rng.choice(["before", "after", "replace", "inplace"])
     lines = ["case %s" % cid, "mtu %d" % mtu,
              "scfg ka=%d ot=%d ct=%d tt=%d block=%s" % (cfg["ka"], cfg["ot"], cfg["ct"], cfg["tt"], ",".join(str(b) for b in block) or "-")]
     outs = []
